@@ -2,6 +2,7 @@
 import hashlib
 import json
 import os
+import re
 import sys
 import time
 
@@ -41,7 +42,7 @@ def relock(run_symbolic, all_props):
         if r['errors'] or r['undecided']:
             print('relock: task %s has errors/undecided: %s %s' % (r['key'], r['errors'][:1], r['undecided']))
         for o in r['obligations']:
-            if (o.get('info') or {}).get('soft'):
+            if (o.get('info') or {}).get('soft') or ':CANARY:' in o['name']:
                 continue
             for p in o['props']:
                 if p in by_prop:
@@ -62,6 +63,9 @@ def relock(run_symbolic, all_props):
     print('relocked: %d tasks, %s obligations per property, %.1fs' % (
         len(results), {p: len(v) for p, v in lock['props'].items()}, time.time() - t0))
     return 0
+
+
+lock_key = findings_mod.lock_key
 
 
 def check_property(prop, tier, seed, run_symbolic, lock, verbose=False, jobs=None):
@@ -103,7 +107,7 @@ def check_property(prop, tier, seed, run_symbolic, lock, verbose=False, jobs=Non
     for f in findings_mod.known():
         eq = f.get('info_equals') or {}
         for o in obligations:
-            if o['name'] in f.get('obligations', []) and o['status'] == 'refuted' and o.get('func') == 'extras':
+            if lock_key(o['name']) in [lock_key(x) for x in f.get('obligations', [])] and o['status'] == 'refuted' and o.get('func') == 'extras':
                 if all(str((o.get('info') or {}).get(k)) == str(v) for k, v in eq.items()):
                     o['status'] = 'known'
                     o.setdefault('info', {})['known_findings'] = [f['id']]
@@ -113,12 +117,15 @@ def check_property(prop, tier, seed, run_symbolic, lock, verbose=False, jobs=Non
     verdict = {n: status_of(v) for n, v in by_name.items()}
 
     # lock: every obligation generated on the unchanged tree must still be generated
+    # (compared modulo the incidental part of a name: which p_* function carries a production, which def a table entry names)
     missing = []
     if lock is not None:
+        have = {lock_key(n) for n in by_name}
         for n in lock['props'].get(prop, []):
-            if n not in by_name:
+            if lock_key(n) not in have:
                 missing.append(n)
-    new_names = sorted(n for n in by_name if lock is not None and n not in lock['props'].get(prop, []))
+    locked = {lock_key(n) for n in (lock or {}).get('props', {}).get(prop, [])}
+    new_names = sorted(n for n in by_name if lock is not None and lock_key(n) not in locked)
 
     known = findings_mod.known()
     fixed = [f for f in findings_mod.load() if f.get('status') == 'fixed' and f.get('property') == prop]
